@@ -71,7 +71,9 @@ class C41(core.Check):
             'bytes of the page) cut at random chunk boundaries with random flush flags, box protection on/off via '
             'both the Codepage and the Converter argument, compared with the model sequence by sequence incl. the '
             'final buffer/bset/last; batch cases (one codepage each): to_unicode_list / get_converter().to_unicode / '
-            'bytes_to_unicode / unicode_to_bytes(errors=ignore|replace|strict) / rows of 256 points '
+            'bytes_to_unicode / unicode_to_bytes(errors=ignore|replace|strict) / rows of 256 points; the ops of a '
+            'batch run as ONE call history on Codepage objects private to the case (reset = new object), incl. '
+            'designed histories: box runs, pending lead, then pairs led by the box byte '
             '(codepoint_to_unicode + bytes_to_unicode; every single byte of every page; every lead byte row in '
             'thorough, a sample in quick); oracle = round-trips and split/concat/chunking read directly on the '
             'implementation, exhaustive over the whole table for pages with a size op. '
@@ -85,15 +87,47 @@ class C41(core.Check):
             self._names = ['default'] + sorted(data.CODEPAGES)
         return self._names
 
+    _live = None    # while a batch case runs: the Codepage objects of THIS case (its call history)
+
     def codepage(self, name, cpbox=True):
+        """outside a batch case: one shared object per page (only read, and used to build Converters);
+        inside a batch case: an object that belongs to the case, as good as freshly constructed"""
+        if self._live is not None:
+            if (name, cpbox) not in self._live:
+                self._live[(name, cpbox)] = self.fresh_codepage(name, cpbox)
+            return self._live[(name, cpbox)]
         cache = self.__dict__.setdefault('_cps', {})
         if (name, cpbox) not in cache:
-            cpm, data = _mods()
-            dcache = self.__dict__.setdefault('_dicts', {})
-            if name not in dcache:
-                dcache[name] = None if name == 'default' else data.read_codepage(name)
-            cache[(name, cpbox)] = cpm.Codepage(dcache[name], box_protect=cpbox)
+            cache[(name, cpbox)] = self.construct(name, cpbox)
         return cache[(name, cpbox)]
+
+    def construct(self, name, cpbox):
+        cpm, data = _mods()
+        dcache = self.__dict__.setdefault('_dicts', {})
+        if name not in dcache:
+            dcache[name] = None if name == 'default' else data.read_codepage(name)
+        return cpm.Codepage(dcache[name], box_protect=cpbox)
+
+    def fresh_codepage(self, name, cpbox):
+        """Codepage.__init__ of a DBCS page costs 20-60 ms, too much for hundreds of histories: keep one
+        constructed-and-never-used object per page and hand out independent copies of it (large tables of
+        immutable str/bytes are copied with dict(), everything else with deepcopy)."""
+        import copy
+        pristine = self.__dict__.setdefault('_pristine', {})
+        if (name, cpbox) not in pristine:
+            cp = self.construct(name, cpbox)
+            if len(cp._cp_to_unicode) <= 256:
+                return cp
+            flat = set(k for k, v in cp.__dict__.items() if type(v) is dict and len(v) > 64 and all(
+                isinstance(a, (str, bytes)) and isinstance(b, (str, bytes)) for a, b in v.items()))
+            pristine[(name, cpbox)] = (cp, flat)
+        cp, flat = pristine[(name, cpbox)]
+        if cp is None:
+            return self.construct(name, cpbox)
+        new = object.__new__(type(cp))
+        for k, v in cp.__dict__.items():
+            new.__dict__[k] = dict(v) if k in flat else copy.deepcopy(v)
+        return new
 
     def dbcs_names(self):
         return [n for n in self.names() if self.codepage(n).dbcs]
@@ -213,6 +247,44 @@ class C41(core.Check):
             op['pieces'] = self.rand_pieces(s)
         return op
 
+    def hist_ops(self, name):
+        """a HISTORY of plain calls on one Codepage object: every call must behave like the first call on a
+        fresh object (conversion at once does not depend on earlier conversions).  Strings that leave a
+        converter in each of its states (runs of box bytes -> cases 3/4, pending lead, pairs led by a box byte)
+        alternate with probes (pairs, rows of a box/lead byte, unicode_to_bytes of what came out)."""
+        rng = self.rng
+        cp = self.codepage(name)
+        lead, trail, box, _ = self.alphabet(cp, [])
+        boxlead = [b for b in box if b in lead] or box or lead or [65]
+        ops = []
+        n = rng.choice([2, 3, 4, 6, 8])
+        cpbox = rng.random() < 0.85
+        for i in range(n):
+            r = rng.random()
+            b = rng.choice(boxlead)
+            if r < 0.35:
+                s = [rng.randrange(32, 127)] * rng.choice([0, 0, 1]) + [b] * rng.choice([2, 3, 3, 4, 5, 7])
+                if rng.random() < 0.3:
+                    s += [rng.choice(trail or [65])]
+            elif r < 0.65:
+                s = [b, rng.choice([b] + (trail or [65]))] * rng.choice([1, 1, 2])
+            elif r < 0.75 and lead:
+                s = [rng.choice(lead)]
+            elif r < 0.85:
+                s = []
+            else:
+                s = self.rand_string(cp, [], rng.randrange(12))
+            ops.append({'op': 'conv', 'api': 2, 'cpbox': cpbox, 'boxarg': rng.choice([None, None, None, False, True]),
+                        'preserve': [] if rng.random() < 0.85 else [[13]], 'subst': rng.random() < 0.15, 's': s})
+            if rng.random() < 0.15:
+                ops.append({'op': 'row', 'pre': [b], 'subst': False})
+            if rng.random() < 0.15:
+                ops.append(self.rand_conv_op(name))
+            if rng.random() < 0.15:
+                ops.append({'op': 'u2b', 'mode': rng.choice(MODES),
+                            'u': [ord(c) for c in self.rand_ustring(cp, rng.randrange(6))]})
+        return ops
+
     def row_ops(self, name, pre):
         cp = self.codepage(name)
         ops = [{'op': 'row', 'pre': pre, 'subst': bool(cp._substitutes) and self.rng.random() < 0.5}]
@@ -225,6 +297,8 @@ class C41(core.Check):
         return ops
 
     def corpus(self):
+        B = lambda s, boxarg=None: {'op': 'conv', 'api': 2, 'cpbox': True, 'boxarg': boxarg, 'preserve': [],
+                                    'subst': False, 's': list(s)}
         P = lambda *ps: [[list(s), f] for s, f in ps]
         mk = lambda cp, pieces, cpbox=True, boxarg=None, preserve=(): {
             'k': 'mark', 'cp': cp, 'cpbox': cpbox, 'boxarg': boxarg, 'preserve': [list(p) for p in preserve],
@@ -264,6 +338,14 @@ class C41(core.Check):
                 {'op': 'size'},
             ]},
             {'k': 'batch', 'cp': 'default', 'ops': [{'op': 'row', 'pre': [], 'subst': False}, {'op': 'size'}]},
+        ] + [
+            # seeded C41d: a converter cached inside the Codepage object keeps _bset/_last across calls:
+            # a box line first, then a pair led by the box byte, on the SAME Codepage object
+            {'k': 'batch', 'cp': name, 'ops': [B(run), B(pair), {'op': 'reset'},
+                                               B(run, boxarg=True), B(pair, boxarg=True),
+                                               B(run), {'op': 'row', 'pre': [run[0]], 'subst': False}]}
+            for name in ('936', '949', '950')
+            for run, pair in (([0xC4] * 3, [0xC4, 0xC4]), ([0xCD] * 4, [0xCD, 0xE3]))
         ]
 
     def gen_cases(self, n):
@@ -311,6 +393,16 @@ class C41(core.Check):
                 ops.append({'op': 'u2b', 'mode': rng.choice(MODES),
                             'u': [ord(c) for c in self.rand_ustring(self.codepage(name), rng.randrange(16))]})
             batches.append({'k': 'batch', 'cp': name, 'ops': ops})
+        # call histories on one Codepage object
+        # (one case = several histories on the same page, separated by `reset` = take a new Codepage object)
+        n_hist = 150 if thorough else 24
+        boxy = [x for x in dbcs if any(b in self.codepage(x).lead for s_ in self.codepage(x)._box_left for b in s_)]
+        for i in range(n_hist):
+            name = (boxy or dbcs)[i % len(boxy or dbcs)] if i % 6 else rng.choice(names)
+            ops = []
+            for _ in range(8):
+                ops += self.hist_ops(name) + [{'op': 'reset'}]
+            batches.append({'k': 'batch', 'cp': name, 'ops': ops})
         rng.shuffle(batches)
         n_mark = max(n - len(batches), 200)
         marks = [self.rand_mark() for _ in range(n_mark)]
@@ -356,12 +448,20 @@ class C41(core.Check):
                     out += enc_strs(conv._mark(bytes(s), fl))
                 return out + enc_state(conv)
             out = []
-            for op in case['ops']:
-                out += self.impl_op(case['cp'], op)
+            self._live = {}
+            try:
+                for op in case['ops']:
+                    out += self.impl_op(case['cp'], op)
+            finally:
+                self._live = None
             return out
 
     def impl_op(self, name, op):
         k = op['op']
+        if k == 'reset':
+            if self._live is not None:
+                self._live.clear()
+            return []
         if k == 'conv':
             cp = self.codepage(name, op['cpbox'])
             pres = tuple(bytes(p) for p in op['preserve'])
@@ -447,10 +547,15 @@ class C41(core.Check):
         with core.time_limit(300):
             if case['k'] == 'mark':
                 return self.oracle_mark(case)
-            for op in case['ops']:
-                why = self.oracle_op(case['cp'], op)
-                if why:
-                    return why
+            # the ops of a batch are one call history on the Codepage object(s) of the case
+            self._live = {}
+            try:
+                for op in case['ops']:
+                    why = self.oracle_op(case['cp'], op)
+                    if why:
+                        return why
+            finally:
+                self._live = None
         return None
 
     def oracle_mark(self, case):
@@ -481,6 +586,7 @@ class C41(core.Check):
     def oracle_op(self, name, op):
         k = op['op']
         if k == 'conv' and op['api'] != 2:
+            self.impl_op(name, op)      # for its place in the history
             whole = [b for s, _ in op['pieces'] for b in s]
             c1 = self.converter(name, op)
             a = []
@@ -491,22 +597,44 @@ class C41(core.Check):
             if a != c2.to_unicode_list(bytes(whole), True):
                 return 'unicode differs between piecewise and at-once conversion'
             return None
+        if k == 'reset':
+            self._live.clear()
+            return None
+        if k == 'conv':
+            # conversion at once, on an object with a history, = a fresh converter fed the string at once
+            # = a fresh converter fed byte by byte then flushed; and a table point still decodes to its entry
+            cp = self.codepage(name, op['cpbox'])
+            s = bytes(op['s'])
+            pres = tuple(bytes(p) for p in op['preserve'])
+            got = cp.bytes_to_unicode(s, pres, box_protect=op['boxarg'], use_substitutes=op['subst'])
+            c1 = self.converter(name, op)
+            ref = c1.to_unicode(s, flush=True)
+            c2 = self.converter(name, op)
+            ref2 = u''.join(c2.to_unicode(s[i:i + 1]) for i in range(len(s))) + c2.to_unicode(b'', flush=True)
+            if got != ref or got != ref2:
+                return ('bytes_to_unicode(%r) on a Codepage object with a call history gives %r, a fresh '
+                        'converter gives %r (at once) / %r (in pieces)' % (s, got, ref, ref2))
+            if not pres and not op['subst'] and s in cp._cp_to_unicode and got != cp._cp_to_unicode[s]:
+                return 'bytes_to_unicode(%r) is not the table entry' % (s,)
+            return None
         cp = self.codepage(name)
         if k == 'row':
             pts = [bytes(op['pre'] + [b]) for b in range(256)]
-            return self.roundtrips(cp, [p for p in pts if p in cp._cp_to_unicode])
+            return self.roundtrips(name, cp, [p for p in pts if p in cp._cp_to_unicode])
         if k == 'size':
-            return self.roundtrips(cp, list(cp._cp_to_unicode))
+            return self.roundtrips(name, cp, list(cp._cp_to_unicode))
+        # unicode_to_bytes: run for its place in the history
+        self.impl_op(name, op)
         return None
 
-    def preimages(self, cp):
+    def preimages(self, name, cp):
         cache = self.__dict__.setdefault('_pre', {})
-        if id(cp) not in cache:
-            cache[id(cp)] = collections.Counter(cp._cp_to_unicode.values())
-        return cache[id(cp)]
+        if name not in cache:
+            cache[name] = collections.Counter(cp._cp_to_unicode.values())
+        return cache[name]
 
-    def roundtrips(self, cp, points):
-        pre = self.preimages(cp)
+    def roundtrips(self, name, cp, points):
+        pre = self.preimages(name, cp)
         for p in points:
             u = cp._cp_to_unicode[p]
             if cp.bytes_to_unicode(p) != u:
@@ -543,9 +671,8 @@ class C41(core.Check):
             if time.time() - t0 > budget_s:
                 return
             cp = self.codepage(name)
-            pre = self.preimages(cp)
             for p in cp._cp_to_unicode:
-                why = self.roundtrips(cp, [p])
+                why = self.roundtrips(name, cp, [p])
                 if why:
                     pfx, last = list(p[:-1]), p[-1]
                     case = {'k': 'batch', 'cp': name, 'ops': [{'op': 'row', 'pre': pfx, 'subst': False}]}
